@@ -39,7 +39,7 @@ def run(ctx):
     ctx.jobs = 14 if ctx.tier == "thorough" else 10
     cs.ensure_sched_hook()
     ctx.cov["rule"] = ("one case = (program, engine mode); modes: unbuf, unbuf_rc, random:<seed> (several seeds); programs as in C03 "
-                       "(corpus minus stated exclusions + generated); every case with a mode other than the default is non-trivial; "
+                       "(corpus minus stated exclusions + generated + an acyclic stream in which a negated goal re-calls an earlier multi-clause goal + the directed programs of seeded/C04/demo.py); every case with a mode other than the default is non-trivial; "
                        "distinct = distinct (program, mode)")
     ctx.assumptions += [
         "the real engine modes are tied to the strategies of the abstract machine only by these sampled runs",
@@ -90,5 +90,22 @@ def run(ctx):
         labels.append("generated#%d" % i)
     ctx.cov["generated_programs"] = nprog
     base.process(ctx, items, labels, "generated", totals, ctx.n(1, 2), judge=cs.judge_modes, word="mode")
+
+    # ---- acyclic stream (shared multi-clause subgoal re-called under a negation) + directed cases
+    ndag = ctx.n(30, 300)
+    items, labels = [], []
+    for name, lines in cs.DIRECTED:
+        items.append(({"src": "\n".join(lines)},
+                      ["default", "unbuf", "unbuf_rc"] + ["random:%d" % k for k in range(ctx.n(6, 12))], 20))
+        labels.append("directed:" + name)
+    for i in range(ndag):
+        lines, feats = cs.gen_dag_program(ctx.rng)
+        for ft in feats:
+            ctx.count("gen feature " + ft)
+        items.append(({"src": "\n".join(lines)}, modes() + ["random:%d" % ctx.rng.randrange(1, 2 ** 31)], 20))
+        labels.append("acyclic#%d" % i)
+    ctx.cov["acyclic_programs"] = ndag
+    ctx.cov["directed_programs"] = [n for n, _ in cs.DIRECTED]
+    base.process(ctx, items, labels, "acyclic", totals, ctx.n(1, 2), judge=cs.judge_modes, word="mode")
     ctx.cov["timeouts_recorded_not_reported"] = totals["timeouts"][:60]
     ctx.cov["timeouts_count"] = len(totals["timeouts"])
